@@ -17,7 +17,7 @@ U = ["varintDimension.c", "varintExternal.c"]
 
 
 def queries(tier):
-    qs = [Query("header", "dim/header.c", U, checks="mem", unwind=22, timeout=600)]
+    qs = [Query("header", "dim/header.c", U, checks="all", unwind=22, timeout=600)]  # checks="all": an over-wide shift is UB that CBMC and x86 resolve differently
     geo = {} if tier == "quick" else {"MAXR": 4, "MAXC": 6}
     to = 900 if tier == "quick" else 2400
     qs.append(Query("cell-bit", "dim/cell.c", U, defs=dict(geo, KIND=0), checks="mem", unwind=160, timeout=to, weight=3))
